@@ -64,6 +64,8 @@ Judge(r) ==
      \o (IF ~tile.ok THEN <<"tokens do not tile the text", ToString(tile.why)>>
          ELSE IF r.mode = "strict" /\ tile.pos # r.len THEN <<"tokens end before the end of the text", ToString(tile.pos), ToString(r.len)>>
          ELSE IF tile.pos > r.len THEN <<"tokens run past the end of the text">> ELSE <<>>)
+     \o (LET pan == {i \in 1..Len(r.tryloc) : r.tryloc[i] = <<-1, -1, -1>>} IN
+         IF pan # {} THEN <<"Locate::try_from panicked on a node (its tokens are not adjacent / in order)", r.kinds[CHOOSE i \in pan : TRUE]>> ELSE <<>>)
      \o (IF r.dbg # <<>> /\ r.dbg # lv THEN <<"token order of the derive(Debug) rendering differs from the iteration order">> ELSE <<>>)
 
 VARIABLES l, nbad
